@@ -16,7 +16,7 @@ use std::sync::atomic::{AtomicU64, Ordering};
 // a trailing '+' = persistent (this call and every later call of that kind fails the same way): a writer that
 // retries must give up with an error, not fall through to Ok
 pub const OPEN_FAULTS: [&str; 12] = ["EACCES", "EROFS", "ENOENT", "EISDIR", "ENOSPC", "EMFILE", "ETXTBSY", "EBUSY", "EAGAIN+", "ETXTBSY+", "EBUSY+", "ETIMEDOUT+"];
-pub const WRITE_FAULTS: [&str; 11] = ["ENOSPC", "EIO", "EDQUOT", "EINTR", "SHORT1", "SHORTHALF", "SHORTLAST", "EFBIG", "EAGAIN+", "ENOSPC+", "EIO+"];
+pub const WRITE_FAULTS: [&str; 13] = ["ENOSPC", "EIO", "EDQUOT", "EINTR", "SHORT1", "SHORTHALF", "SHORTLAST", "EFBIG", "EPIPE", "ECONNRESET", "EAGAIN+", "ENOSPC+", "EIO+"];
 
 fn symbol(v: usize) -> Option<Box<QRCode>> {
     let input = content(Family::Ctr, 2, crate::refmodel::cap(v, 1, 2));
@@ -247,7 +247,16 @@ pub fn replay(case: &Value, verif_dir: &str) -> Result<Vec<(String, String)>, St
     let logo_dir = make_logo_dir(&dir)?;
     let cwd = if kind == "pngi" { Some(logo_dir.as_str()) } else { None };
     let expected = expected_for(&kind, v, &q, &logo_dir, &dir)?;
-    let res = if let Some(p) = case.get("os_path").and_then(|x| x.as_str()) {
+    let res = if let Some(rel) = case.get("relative_path").and_then(|x| x.as_str()) {
+        // the three relative paths of the check resolve as follows from {dir}/rel/a/b
+        let deep = format!("{}/rel/a/b", dir);
+        std::fs::create_dir_all(&deep).map_err(|e| e.to_string())?;
+        let name = rel.rsplit('/').next().unwrap_or(rel);
+        let resolved = if rel.starts_with("./") { format!("{}/{}", deep, name) } else { format!("{}/rel/{}", dir, name) };
+        let _ = std::fs::remove_file(&resolved);
+        let run = run_child(verif_dir, &kind, v, rel, &[], "fqvtarget", &format!("{}/log", dir), Some(&deep))?;
+        judge(&run, std::fs::read(&resolved).ok(), &expected, &[])
+    } else if let Some(p) = case.get("os_path").and_then(|x| x.as_str()) {
         let path = p.replace("{dir}", &dir);
         let run = run_child(verif_dir, &kind, v, &path, &[], "fqv-no-such-marker", &format!("{}/log", dir), cwd)?;
         judge_os(&run, &path)
@@ -274,7 +283,7 @@ fn judge_os(run: &Run, path: &str) -> Vec<(String, String)> {
 
 pub fn run(ctx: &Ctx) -> Collector {
     let col = Collector::new("C19", "fault_enumeration");
-    col.set_rule("cases = for SvgBuilder::to_file and ImageBuilder::to_file on 14 (thorough 22) builder/symbol targets (default, rounded squares, a single layer with its own colour, a fit box of 4e9 x 300, a caller-supplied shape that draws one module in seven, an embedded image given as a parameterless data URI, fit_width, an embedded image given as a relative file name present in the working directory but not in the output directory) whose output sizes range from 0.2 KB to 0.5 MB and straddle the 4 KiB, 8 KiB and 64 KiB buffer sizes: (i) real OS faults: missing directory, path is a directory, /dev/full (ENOSPC at write time), path containing NUL, empty path, long paths with multi-byte characters at four alignments, a 300-character name; (i') no fault over 7 kinds of file already present (identical, same length differing in the last / first / one late byte, longer, shorter, empty); (ii) faults injected below the crate by an LD_PRELOAD shim over open/open64/openat/write/close: ALL fault sequences of up to 2 (thorough 3) deviations, a deviation = (k-th open of the target, class in {EACCES, EROFS, ENOENT, EISDIR, ENOSPC, EMFILE, ETXTBSY, EBUSY, and persistently EAGAIN, ETXTBSY, EBUSY, ETIMEDOUT}) or (k-th write to the target, class in {ENOSPC, EIO, EDQUOT, EFBIG, EINTR, short 1 byte, short n/2, short n-1, and persistently EAGAIN, ENOSPC, EIO}), k ranging over every call index in the syscall log of the run being extended (DFS over prefixes); each run is a child process calling the real to_file, once with no file present and once over a stale 1 MiB file (longer than any output); oracle: no panic/abort; Ok => file bytes = to_str()/to_bytes() of the same builder; after any delivered fault Err is accepted, Ok only with the exact bytes in the file (a writer that recovers and completes the file is right); non-trivial = a fault was delivered; distinct = distinct (target, plan) pairs with distinct syscall logs");
+    col.set_rule("cases = for SvgBuilder::to_file and ImageBuilder::to_file on 14 (thorough 22) builder/symbol targets (default, rounded squares, a single layer with its own colour, a fit box of 4e9 x 300, a caller-supplied shape that draws one module in seven, an embedded image given as a parameterless data URI, fit_width, an embedded image given as a relative file name present in the working directory but not in the output directory) whose output sizes range from 0.2 KB to 0.5 MB and straddle the 4 KiB, 8 KiB and 64 KiB buffer sizes: (i) real OS faults: missing directory, path is a directory, /dev/full (ENOSPC at write time), path containing NUL, empty path, long paths with multi-byte characters at four alignments, a 300-character name; (i') no fault over 7 kinds of file already present and through 3 relative paths with . and .. components from a deeper working directory (identical, same length differing in the last / first / one late byte, longer, shorter, empty); (ii) faults injected below the crate by an LD_PRELOAD shim over open/open64/openat/write/close: ALL fault sequences of up to 2 (thorough 3) deviations, a deviation = (k-th open of the target, class in {EACCES, EROFS, ENOENT, EISDIR, ENOSPC, EMFILE, ETXTBSY, EBUSY, and persistently EAGAIN, ETXTBSY, EBUSY, ETIMEDOUT}) or (k-th write to the target, class in {ENOSPC, EIO, EDQUOT, EFBIG, EPIPE, ECONNRESET, EINTR, short 1 byte, short n/2, short n-1, and persistently EAGAIN, ENOSPC, EIO}), k ranging over every call index in the syscall log of the run being extended (DFS over prefixes); each run is a child process calling the real to_file, once with no file present and once over a stale 1 MiB file (longer than any output); oracle: no panic/abort; Ok => file bytes = to_str()/to_bytes() of the same builder; after any delivered fault Err is accepted, Ok only with the exact bytes in the file (a writer that recovers and completes the file is right); non-trivial = a fault was delivered; distinct = distinct (target, plan) pairs with distinct syscall logs");
     col.assume("the OS below the syscall boundary is modelled by the shim's fault classes; faults at close/fsync are not modelled because the crate does not call fsync and ignores close errors like std does");
     let thorough = ctx.tier.thorough();
     let dir = format!("{}/scratch/c19-{}", ctx.verif_dir, std::process::id());
@@ -320,7 +329,8 @@ pub fn run(ctx: &Ctx) -> Collector {
                 return;
             }
         };
-        let path = format!("{}/fqvtarget.{}", tdir, if kind.starts_with("svg") { "svg" } else { "png" });
+        let ext = if kind.starts_with("svg") { "svg" } else { "png" };
+        let path = format!("{}/fqvtarget.{}", tdir, ext);
         let logp = format!("{}/log", tdir);
         // (i) real OS faults
         let _ = std::fs::create_dir_all(format!("{}/isdir", tdir));
@@ -385,6 +395,30 @@ pub fn run(ctx: &Ctx) -> Collector {
                         let file = std::fs::read(&path).ok();
                         for (k, w) in judge(&run, file, &expected, &[]) {
                             col.violation((2, ti as u64), format!("C19/{}", k), format!("{} v{} (file already present: {}): {}", kind, v, name, w), json!({"kind": "fault", "target": kind, "version": v, "plan": [], "existing_file": name}));
+                        }
+                    }
+                    Err(e) => col.machinery_error(e),
+                }
+            }
+        }
+        // (i'') no fault, a relative path that climbs out of the working directory: the file must be where the operating
+        // system resolves that path, with exactly the new output
+        if cwd.is_none() {
+            let deep = format!("{}/rel/a/b", tdir);
+            let _ = std::fs::create_dir_all(&deep);
+            for (rel, resolved) in [
+                (format!("../../fqvtarget-rel.{}", ext), format!("{}/rel/fqvtarget-rel.{}", tdir, ext)),
+                (format!("../../../rel/./a/../fqvtarget-rel2.{}", ext), format!("{}/rel/fqvtarget-rel2.{}", tdir, ext)),
+                (format!("./fqvtarget-rel3.{}", ext), format!("{}/fqvtarget-rel3.{}", deep, ext)),
+            ] {
+                let _ = std::fs::remove_file(&resolved);
+                match run_child(&ctx.verif_dir, kind, v, &rel, &[], "fqvtarget", &logp, Some(&deep)) {
+                    Ok(run) => {
+                        runs.fetch_add(1, Ordering::Relaxed);
+                        col.eval(Some(crate::util::fnv(format!("{}{}rel:{}", kind, v, rel).as_bytes())));
+                        let file = std::fs::read(&resolved).ok();
+                        for (k, w) in judge(&run, file, &expected, &[]) {
+                            col.violation((2, ti as u64), format!("C19/{}", k), format!("{} v{} (relative path {:?} from a working directory two levels down; the file is looked for where the operating system resolves it): {}", kind, v, rel, w), json!({"kind": "fault", "target": kind, "version": v, "plan": [], "relative_path": rel}));
                         }
                     }
                     Err(e) => col.machinery_error(e),
